@@ -78,6 +78,8 @@ for p in props:
     pid = p["id"]
     if pid in CHECKS:
         eng, cat, tech, text, note, ref = CHECKS[pid]
+        if pid in ("C03", "C08", "C09", "C10", "C18"):
+            text += " Thorough tier additionally interprets the same workload on a handful of small programs under Miri, one process per Miri seed (different deterministic preemptive schedules), so undefined behaviour, data races and leaks in anything the runs reach are reported by the interpreter."
         checks.append({
             "property_id": pid,
             "quick_cmd": "./check run %s --tier quick" % pid,
